@@ -30,7 +30,7 @@ REPLICAS = {
     "A": [],
     "As": ["-mbmi2", "-madx"],
     "B": ["-DDISABLE_ASM"],
-    "C": ["-DDISABLE_ASM", "-U__SIZEOF_INT128__"],
+    "C": ["-DDISABLE_ASM", "-U__SIZEOF_INT128__", "-funsigned-char"],   # 32-bit words as a Cortex-M0+ build has them, and plain char unsigned as in the ARM ABIs (on x86-64 it is signed: replicas A, As, B, G)
     "G": ["@g++"],          # the same sources through the other compiler the Makefile names (g++, asm back end); plain flavour only
 }
 FLAVOURS = {
